@@ -1,0 +1,84 @@
+//go:build verif
+
+// Contracts for govc (see /verif/DESIGN.md). Comment-only; compiled only with -tags verif.
+
+package tparsetime
+
+//@ property C13 C07
+
+// ---- specification of the timestamp shape (from the property statement) -------------------------
+//@ pure func d(t string, i int) int := t[i] - 48
+//@ pure func dec2(t string, i int) int := d(t, i) * 10 + d(t, i+1)
+//@ pure func dec4(t string, i int) int := d(t, i) * 1000 + d(t, i+1) * 100 + d(t, i+2) * 10 + d(t, i+3)
+//@ pure func shaped(t string) bool :=
+//@     len(t) >= 19 && t[4] == '-' && t[7] == '-' && t[10] == 'T' && t[13] == ':' && t[16] == ':'
+//@ pure func datedigits(t string) bool :=
+//@     isdig(t[0]) && isdig(t[1]) && isdig(t[2]) && isdig(t[3]) && isdig(t[5]) && isdig(t[6]) && isdig(t[8]) && isdig(t[9])
+//@  && isdig(t[11]) && isdig(t[12]) && isdig(t[14]) && isdig(t[15]) && isdig(t[17]) && isdig(t[18])
+// fracend(t, k): the fraction (if any) occupies t[19:k]; k == 19 means no fraction
+//@ pure func fracend(t string, k int) bool :=
+//@     19 <= k && k <= len(t)
+//@  && (k == 19 ==> !(len(t) > 20 && t[19] == '.'))
+//@  && (k > 19 ==> len(t) > 20 && t[19] == '.' && k >= 21 && (forall j int :: 20 <= j && j < k ==> isdig(t[j])) && (k == len(t) || !isdig(t[k])))
+// nanoseconds denoted by the n = k-20 fraction digits t[20:k], 1 <= n <= 9 (0 when there is no fraction)
+//@ pure func nanos(t string, k int) int :=
+//@     (k > 20 ? d(t, 20) * 100000000 : 0) + (k > 21 ? d(t, 21) * 10000000 : 0) + (k > 22 ? d(t, 22) * 1000000 : 0)
+//@   + (k > 23 ? d(t, 23) * 100000 : 0) + (k > 24 ? d(t, 24) * 10000 : 0) + (k > 25 ? d(t, 25) * 1000 : 0)
+//@   + (k > 26 ? d(t, 26) * 100 : 0) + (k > 27 ? d(t, 27) * 10 : 0) + (k > 28 ? d(t, 28) : 0)
+//@ pure func haschar(s string, c int) bool := exists i int :: 0 <= i && i < len(s) && s[i] == c
+// valid(t, k): t is a valid RFC 3339 timestamp whose fraction ends at k (at most nine digits) followed by "Z" or a numeric offset
+//@ pure func valid(t string, k int) bool :=
+//@     shaped(t) && datedigits(t) && fracend(t, k) && k <= 29 && k < len(t) && zoneshape(t[k:], haschar(t[k:], ':'))
+// representation invariant of the zone cache: every cached location has the offset its key denotes
+//@ pure func cacheok(c map[string]*time.Location) bool :=
+//@     c != nil && forall k int :: rawhas(c, k) ==> rawget(c, k) != nil && locoffset(rawget(c, k)) == zoneoff(k)
+
+//@ func splitFractionAndTimezone(s string) (string, string)
+//@   ensures len(result.0) + len(result.1) == len(s) && result.1 === s[len(result.0):] && result.0 == s[:len(result.0)]
+//@   ensures len(result.0) > 0 ==> len(s) > 1 && s[0] == '.' && (forall j int :: 1 <= j && j < len(result.0) ==> isdig(s[j]))
+//@                                 && (len(result.1) == 0 || !isdig(result.1[0]))
+//@   ensures len(result.0) == 0 ==> !(len(s) > 1 && s[0] == '.')
+//@   loop 1: invariant 1 <= i && i <= len(s) && (forall j int :: 1 <= j && j < i ==> isdig(s[j]))
+//@   loop 1: decreases len(s) - i
+
+//@ func parseRFC3339Timestamp(timeStr string, timezoneCache map[string]*time.Location) (time.Time, error)
+//@   requires cacheok(timezoneCache)
+//@   modifies timezoneCache
+//@   ensures  cacheok(timezoneCache)
+//@   ensures[not-shaped-is-error]  !shaped(timeStr) ==> result.1 != nil
+//@   ensures[exact-instant] forall k int :: valid(timeStr, k) ==> result.1 == nil
+//@        && instant(result.0) == civil(dec4(timeStr, 0), dec2(timeStr, 5), dec2(timeStr, 8), dec2(timeStr, 11), dec2(timeStr, 14), dec2(timeStr, 17), nanos(timeStr, k))
+//@                                - zoneoff(key(timeStr[k:]))
+//@   canary ensures forall k int :: valid(timeStr, k) ==> result.1 == nil
+//@        && instant(result.0) == civil(dec4(timeStr, 0), dec2(timeStr, 5), dec2(timeStr, 8), dec2(timeStr, 11), dec2(timeStr, 14), dec2(timeStr, 17), nanos(timeStr, k) + 1)
+//@                                - zoneoff(key(timeStr[k:]))
+
+//@ func (tf *parseTimeTransform) Transform(record *base.LogRecord) base.FilterResult
+//@   requires tf != nil && record != nil && cacheok(tf.timezoneCache) && tf.errorCounter != nil
+//@   requires 0 <= tf.keyLocator && tf.keyLocator < len(record.Fields)
+//@   modifies record.Timestamp, tf.timezoneCache
+//@   ensures  result == base.PASS
+//@   ensures[error-counted-once-timestamp-kept]
+//@        ncalls(tf.errorCounter) == old(ncalls(tf.errorCounter))
+//@     || (ncalls(tf.errorCounter) == old(ncalls(tf.errorCounter)) + 1 && record.Timestamp == old(record.Timestamp))
+//@   ensures[not-shaped-counted] len(old(record.Fields[tf.keyLocator])) > 0 && !shaped(old(record.Fields[tf.keyLocator]))
+//@        ==> ncalls(tf.errorCounter) == old(ncalls(tf.errorCounter)) + 1 && record.Timestamp == old(record.Timestamp)
+//@   ensures[empty-counted] len(old(record.Fields[tf.keyLocator])) == 0
+//@        ==> ncalls(tf.errorCounter) == old(ncalls(tf.errorCounter)) + 1 && record.Timestamp == old(record.Timestamp)
+
+// scaleat(i) = 10^(9-i) for the digit at index i of ".ddddddddd" (i = 1..9), 0 afterwards (integer division of 1 by 10)
+//@ pure func scaleat(i int) int :=
+//@     i == 1 ? 100000000 : i == 2 ? 10000000 : i == 3 ? 1000000 : i == 4 ? 100000 : i == 5 ? 10000 : i == 6 ? 1000 : i == 7 ? 100 : i == 8 ? 10 : i == 9 ? 1 : 0
+// fracsum(s, i): value in nanoseconds of the digits s[1:i]
+//@ pure func fracsum(s string, i int) int :=
+//@     (i > 1 ? (s[1]-48) * 100000000 : 0) + (i > 2 ? (s[2]-48) * 10000000 : 0) + (i > 3 ? (s[3]-48) * 1000000 : 0)
+//@   + (i > 4 ? (s[4]-48) * 100000 : 0) + (i > 5 ? (s[5]-48) * 10000 : 0) + (i > 6 ? (s[6]-48) * 1000 : 0)
+//@   + (i > 7 ? (s[7]-48) * 100 : 0) + (i > 8 ? (s[8]-48) * 10 : 0) + (i > 9 ? (s[9]-48) : 0)
+
+//@ func atonsec(s string) (int, bool)
+//@   requires forall j int :: 1 <= j && j < len(s) ==> isdig(s[j])
+//@   ensures  result.1 <==> len(s) >= 2
+//@   ensures  result.1 ==> result.0 == fracsum(s, min(len(s), 10))
+//@   ensures  0 <= result.0 && result.0 < 1000000000
+//@   loop 1: invariant 1 <= i && i <= 10 && i <= len(s) && scale == scaleat(i) && nsec == fracsum(s, i) && 0 <= nsec && nsec <= 1000000000 - scale * 10 + (i == 10 ? 9 : 0)
+//@   loop 1: decreases 10 - i
